@@ -480,7 +480,19 @@ def facade_caches(repo: Repo, res: CheckResult) -> None:
                 if len(makers) != 1:
                     raise AnalysisError(f"{qual}: cannot find the maker call")
                 mk = makers[0].value
-                key_names = {x.id for x in ast.walk(st.slice) if isinstance(x, ast.Name)}
+                key_expr = st.slice
+                if isinstance(key_expr, ast.Name):
+                    bound = [a for a in ast.walk(fn) if isinstance(a, ast.Assign) and len(a.targets) == 1
+                             and isinstance(a.targets[0], ast.Name) and a.targets[0].id == key_expr.id]
+                    if len(bound) == 1:
+                        key_expr = bound[0].value
+                proj = [c for c in ast.walk(key_expr) if isinstance(c, (ast.Call, ast.Attribute))]
+                if proj:
+                    res.add(Finding("C11", "FACADE.key-projects-parameter", m.rel, qual, f"key {norm(key_expr)[:80]}",
+                                    f"the cache key `{norm(key_expr)[:80]}` is computed FROM the parameters ({norm(proj[0])[:40]}) instead of "
+                                    "being the parameters: two different requests with the same projection (same repr, same name ...) "
+                                    "share one compiled function", st.lineno))
+                key_names = {x.id for x in ast.walk(key_expr) if isinstance(x, ast.Name)}
                 maker_names = {x.id for a in list(mk.args) + [k.value for k in mk.keywords] for x in ast.walk(a)
                                if isinstance(x, ast.Name)}
                 missing = maker_names - key_names - {"self"}
